@@ -302,6 +302,30 @@ func (ex *Exec) valEq(a, b Value) *Term {
 			return BoolC(types.Identical(x.T, y.T))
 		}
 		return BoolC(x.T == nil && isNilValue(b))
+	case RValue:
+		// == on reflect.Value structs compares (type, data pointer, flags)
+		y, ok := b.(RValue)
+		if !ok {
+			return False
+		}
+		if x.T == nil || y.T == nil {
+			return BoolC(x.T == nil && y.T == nil)
+		}
+		if !types.Identical(x.T, y.T) {
+			return False
+		}
+		if x.Loc != nil && y.Loc != nil {
+			return BoolC(ptrEq(*x.Loc, *y.Loc))
+		}
+		if s, isS := x.T.Underlying().(*types.Struct); isS && s.NumFields() == 0 {
+			return True
+		}
+		if px, okx := x.Imm.(Ptr); okx {
+			if py, oky := y.Imm.(Ptr); oky {
+				return BoolC(ptrEq(px, py))
+			}
+		}
+		unsupported("== on reflect.Value of type %s (data pointer identity not modelled)", x.T)
 	case Opaque:
 		if y, ok := b.(Opaque); ok {
 			return BoolC(x.ID == y.ID)
